@@ -90,7 +90,7 @@ FINDERS = {
 SPACING = {'new': (29.1, 30.0), 'first': (29.1, 30.0), 'full': (29.1, 30.0), 'last': (29.1, 30.0),
            'perigee': (24.5, 28.7), 'apogee': (26.9, 28.0), 'ascending': (26.9, 27.6), 'descending': (26.9, 27.6),
            'northern': (27.0, 27.7), 'southern': (27.0, 27.7)}
-DRIVER_FN = {'phase': 'moon_phase', 'apsis': 'moon_apsis', 'nodes': 'moon_nodes', 'decl': 'moon_decl'}
+DRIVER_FN = {'phase': 'moon_phase_j', 'apsis': 'moon_apsis_j', 'nodes': 'moon_nodes_j', 'decl': 'moon_decl_j'}
 BAD_TARGETS = ['', ' ', 'New', 'NEW', 'new ', ' new', 'newmoon', 'n', 'full moon', 'third', 'First', 'Full', 'LAST',
                'Perigee', 'apogee ', 'peri', 'Ascending', 'descend', 'north', 'Northern', 'south', 'southern ',
                'nеw']    # the last one has a Cyrillic 'е'
@@ -265,11 +265,6 @@ def tie_position(ctx, j, klass, full=True):
     ctx.case('moon_illum', [j], run_impl(lambda: Moon.illuminated_fraction_disk(e)), q=None)
     if not full:
         return
-    try:
-        dpsi = L['nutation_longitude'](e)._deg
-        eps = L['true_obliquity'](e)._deg
-    except Exception:  # noqa
-        return
 
     def ae():
         a, b, c, d = Moon.apparent_ecliptical_pos(e)
@@ -278,15 +273,10 @@ def tie_position(ctx, j, klass, full=True):
     def aq():
         a, b, c, d = Moon.apparent_equatorial_pos(e)
         return (a._deg, b._deg, c, d._deg)
-    ctx.case('moon_app_ecl', [j, dpsi], run_impl(ae), q=None)
-    ctx.case('moon_app_equ', [j, dpsi, eps], run_impl(aq), q=None)
-    try:
-        a0, d0, r0 = Sun.apparent_rightascension_declination_coarse(e)
-        a, d, r, pp = Moon.apparent_equatorial_pos(e)
-    except Exception:  # noqa
-        return
-    ctx.case('moon_bright_limb', [a0._deg, d0._deg, a._deg, d._deg],
-             run_impl(lambda: Moon.position_bright_limb(e)._deg), q=None)
+    # nutation in longitude, true obliquity and the coarse Sun are inside the model (templates Vsop / SunEarth)
+    ctx.case('moon_app_ecl_j', [j], run_impl(ae), q=None)
+    ctx.case('moon_app_equ_j', [j], run_impl(aq), q=None)
+    ctx.case('moon_bright_limb_j', [j], run_impl(lambda: Moon.position_bright_limb(e)._deg), q=None)
 
 
 # ------------------------------------------------------------------ (I) finder clauses
@@ -359,30 +349,24 @@ def check_pair(ctx, finder, target, q1, r1, q2, r2, klass):
     """Order and spacing for two queries q1 < q2 (at most one period apart) with results r1, r2."""
     inp = [q1, q2, finder, target]
     ctx.predicate('never_backwards', r2 >= r1, inp, {'r1': r1, 'r2': r2}, klass)
-    if r2 != r1:
+    if r2 > r1:
         lo, hi = SPACING[target]
         ctx.predicate('consecutive_one_period', lo <= r2 - r1 <= hi, inp, {'r1': r1, 'r2': r2, 'spacing': r2 - r1},
                       klass + '/' + target)
 
 
 def tie_finder(ctx, finder, target, q, klass):
+    """(S) the whole chain from the query JDE: date, leap rule, day of year, fractional year, count, series,
+    Epoch(jde) renormalisation."""
     e = ep(q)
-    try:
-        yr = frac_year(e)
-    except Exception:  # noqa
-        return
-    ctx.case(DRIVER_FN[finder], [yr, target], finder_out(finder, target, e), q=None, klass=DRIVER_FN[finder] + '/' + klass)
+    ctx.case(DRIVER_FN[finder], [float(q), target], finder_out(finder, target, e), q=None,
+             klass=DRIVER_FN[finder] + '/' + klass)
 
 
 def check_bad_targets(ctx, q):
     L = lib()
     Moon = L['Moon']
     e = ep(q)
-    try:
-        yr = frac_year(e)
-    except Exception as ex:  # noqa
-        ctx.predicate('finder_total', False, [q, 'phase', 'new'], 'fractional year: ' + repr(ex), 'bad_target')
-        yr = None
     fns = {'phase': lambda t: Moon.moon_phase(e, t), 'apsis': lambda t: Moon.moon_perigee_apogee(e, t),
            'nodes': lambda t: Moon.moon_passage_nodes(e, t), 'decl': lambda t: Moon.moon_maximum_declination(e, t)}
     for finder, fn in fns.items():
@@ -392,8 +376,8 @@ def check_bad_targets(ctx, q):
                 continue
             out = run_impl(lambda: fn(t) and 0)
             ctx.predicate('bad_target_refused', out == 'E:ValueError', [q, finder, t], out, 'bad_target')
-            if '_' not in t and yr is not None:
-                ctx.case(DRIVER_FN[finder], [yr, t], out, q=None, klass=DRIVER_FN[finder] + '/bad_target')
+            if '_' not in t:
+                ctx.case(DRIVER_FN[finder], [float(q), t], out, q=None, klass=DRIVER_FN[finder] + '/bad_target')
         for t in (None, 0, 1.5, b'new', ['new']):
             out = run_impl(lambda: fn(t) and 0)
             ctx.predicate('non_string_target_refused', out == 'E:TypeError', [q, finder, repr(t)], out, 'bad_target')
@@ -434,6 +418,35 @@ def sweep_year(ctx, y, klass, pending, frac=0.0, tie_every=1):
                 prev = (q, r)
                 if n % tie_every == 0:
                     pending.append((finder, target, q, klass))
+
+
+YEAR_END_OFFSETS_S = (-236.0, -180.0, -137.0, -90.0, -30.0, -0.001, 0.0, 40.0, 99.0, 150.0, 236.0)
+
+
+def sweep_year_ends(ctx, ys, pending, rng):
+    """Queries a few minutes around 31 December 24h: the finders' fractional year y + doy/days is not
+    continuous there (it steps by 1/days(y+1) - 1/days(y)), so this is where the order clause is at risk."""
+    Epoch = lib()['Epoch']
+    for y in ys:
+        j2 = Epoch(y + 1, 1, 1.0)._jde
+        qs = [j2 + s_ / 86400.0 for s_ in YEAR_END_OFFSETS_S]
+        for finder, targets in FINDERS.items():
+            for target in targets:
+                prev = None
+                for q in qs:
+                    try:
+                        r, _ = call_finder(finder, target, ep(q))
+                    except Exception as ex:  # noqa
+                        ctx.predicate('finder_total', False, [q, finder, target], repr(ex), 'year_end')
+                        prev = None
+                        continue
+                    if prev is not None:
+                        check_pair(ctx, finder, target, prev[0], prev[1], q, r, 'year_end')
+                    prev = (q, r)
+        q = rng.choice(qs)
+        finder = rng.choice(list(FINDERS))
+        pending.append((finder, rng.choice(FINDERS[finder]), q, 'year_end'))
+        ctx.case('moon_fyear', [q], run_impl(lambda: frac_year(ep(q))), q=None, klass='moon_fyear/year_end')
 
 
 JULIAN_CENTURY = [100, 200, 300, 500, 600, 700, 900, 1000, 1100, 1300, 1400, 1500]
@@ -521,6 +534,16 @@ def generate(ctx, shard=0, nshards=1):
                         if r is not None:
                             check_event(ctx, finder, target, q, 'julian_century_leap_day')
                             pending.append((finder, target, q, 'julian_century_leap_day'))
+    # ---- the last / first minutes of every calendar year
+    Ep = Epoch
+    allys = list(range(-2000, 4000))
+    risky = [y for y in allys if (not Ep.is_leap(y)) and Ep.is_leap(y + 1)]   # common year followed by a leap year
+    base = set(risky) | {h + d for h in hot_years for d in (-1, 0)} | {1581, 1582, -2000, 3999}
+    if full:
+        base |= set(allys)
+    else:
+        base |= set(y for y in allys if (y + base_seed) % 7 == 0)
+    sweep_year_ends(ctx, sorted(base)[shard::nw], pending, rng)
     # ---- random single queries over the whole range (events checked), dense near the ends
     for _ in range(ctx.n(1200, 30000) // nw):
         r = rng.random()
